@@ -1,7 +1,8 @@
 package main
 
-// forged version-1 stream: 56 bytes make one decoding task allocate 144 MiB (decodeChunkV1 sizes its
-// buffer from the VarInt in the stream, not from the block)
+// forged version-1 stream of 52 bytes.  Before /repo commit a7dd04c one decoding task allocated 144 MiB
+// (decodeChunkV1 sized its buffer from the VarInt in the stream, not from the block); since the fix the
+// size is rejected ("incorrect chunk size") and about 0.3 MiB is allocated.  args: <version> <jobs>
 import (
 	"bytes"
 	"fmt"
